@@ -27,6 +27,7 @@ META["text"] += " R4 also classifies every in-place override by its controlling 
 
 def run(chk):
     idx = chk.idx
+    R.rule_stateless(chk, "C12.R8")  # first: its refutations stand even if a later rule cannot read the code
     chk.explain(
         "Each test method is translated (AST -> sympy term, if-conversion, NumPy recipes recognised: exclusive "
         "prefix sum, 1..n index, sample total) and compared with the published formula from the property text by "
